@@ -170,7 +170,7 @@ def _find_terminal_instruction(snapshot, ctls, start, end, rst_handler, ctl=None
     address = start
     while address < end:
         i_addr, size, max_count, op_id = next(decode(snapshot, address, address + 1, rst_handler))[:4]
-        address += size
+        address = min(address + size, end)
         if ctl is None:
             for a in range(i_addr, address):
                 if a in ctls:
@@ -499,5 +499,12 @@ def generate_ctls(snapshot, start, end, code_map, config):
     else:
         rst_handler = None
     if code_map:
-        return _generate_ctls_with_code_map(snapshot, start, end, config, rst_handler, code_map)
-    return _generate_ctls_without_code_map(snapshot, start, end, config, rst_handler)
+        ctls = _generate_ctls_with_code_map(snapshot, start, end, config, rst_handler, code_map)
+    else:
+        ctls = _generate_ctls_without_code_map(snapshot, start, end, config, rst_handler)
+    if end < 65536:
+        # An instruction that crosses the end address must not produce any
+        # directive after it, or replace the terminating directive
+        ctls = {a: c for a, c in ctls.items() if a < end}
+        ctls[end] = 'i'
+    return ctls
